@@ -267,6 +267,69 @@ def reload_config(w1: int, w2: int, rel: bool, has_chdir: bool, nreload: int) ->
     return app.cfg.workers == w2 and state["cwd"] == ("/app" if has_chdir else start)
 
 
+def reload_broken(cliw: int, how: int, nreload: int) -> bool:
+    """
+    pre: 2 <= cliw <= 4 and 0 <= how <= 2 and 1 <= nreload <= 2
+    post: __return__
+    """
+    # the operator breaks the config file and sends HUP.  "A value a setting's validator rejects stops startup with an
+    # error": reload() may stop the master (SystemExit) - what it must never do is come back with a configuration in which
+    # the sources that did load (here: the command line's --workers) are missing, because the next generation of workers
+    # would be started from it (with the master's own user/group, the default bind, ...)
+    cliw, how, nreload = pick(cliw, 2, 4), pick(how, 0, 2), pick(nreload, 1, 2)
+    state = {"broken": False}
+
+    class App(B.Application):
+        def __init__(self_):
+            self_.usage = self_.prog = self_.callable = self_.logger = None
+            self_.cfg = None
+
+        def init(self_, parser, opts, args):
+            return {}
+
+        def chdir(self_):
+            pass
+
+        def get_config_from_filename(self_, filename):
+            if state["broken"]:
+                if how == 0:
+                    raise RuntimeError("%r doesn't exist" % filename)
+                if how == 1:
+                    return {"timeout": -5}                      # rejected by the validator
+                return {"keepalive": "soon"}                    # not a number
+            return {"timeout": 40}
+    cli = Namespace(args=[], config="conf.py", workers=cliw)
+    env = Namespace(args=[], config=None)
+    saved = (Config.parser, Config.get_cmd_args_from_env, B.sys, B.get_default_config_file)
+
+    class P:
+        def parse_args(self_, a=None):
+            return cli if a is None else env
+    Config.parser = lambda self_: P()
+    Config.get_cmd_args_from_env = lambda self_: []
+    B.sys = ns("B.sys", stderr=ns("stderr", write=lambda s_: None, flush=lambda: None), path=[], exit=real_exit,
+               argv=["gunicorn"], exc_info=lambda: (None, None, None))
+    B.get_default_config_file = lambda: None
+    app = App()
+    try:
+        app.do_load_config()
+        if app.cfg.workers != cliw or app.cfg.timeout != 40:
+            return False
+        state["broken"] = True
+        for _ in range(nreload):
+            try:
+                app.reload()
+            except SystemExit as e:
+                return e.code not in (0, None)                   # the master stops, with an error status
+            except Exception:
+                return False
+            if app.cfg.workers != cliw:
+                return False
+    finally:
+        Config.parser, Config.get_cmd_args_from_env, B.sys, B.get_default_config_file = saved
+    return True
+
+
 def real_exit(code=0):
     raise SystemExit(code)
 
@@ -302,5 +365,8 @@ OBLIGATIONS = [
     Ob("C10.reload_config", "reload_config", timeout=600,
        bound="real Application.reload/load_config/chdir: config file named relatively or absolutely, setting chdir or not, "
              "workers 1..3 -> 1..3, one or two reloads"),
+    Ob("C10.reload_broken", "reload_broken", timeout=300,
+       bound="real Application.reload with a config file that became unreadable / carries a value the validator rejects / a value of "
+             "the wrong type, --workers 2..4 on the command line, one or two reloads: stops with an error or keeps every source"),
     Ob("C10.reload.twin", "reload_twin", cases=[{"k": 2, "bi": 1, "wrap": True, "tape": 1, "hups": 1}], expect="refute", timeout=300),
 ]
